@@ -25,7 +25,7 @@ RULE = ("coarsen_bins: every valid bin table with 1 chromosome of length <=7 and
         "_greedy_prune_partition: every non-decreasing edge list from 0 of length 2..5 with values <=5 x maxlen 1..6; "
         "coarsen_cooler: corpus (D1 longer-last-bin tables, chromosomes shorter than k, empty cooler, empty rows at chunk edges, variable tables whose coarsening looks fixed, bin size 1, one-bin chromosomes) x k in {2,3,5,n+1} x chunksize in {1,2,7,nnz+1} (all 16 combinations for the first 4 corpus coolers, 1 chunk size per k for the other corpus coolers, 2 for the random ones), "
         "seeded random coolers (fixed / variable / longer-last / variable-that-coarsens-to-fixed tables, 1-4 chromosomes, symmetric and square storage, 9 pixel patterns) x all four k x two chunk sizes, "
-        "fixed-width tables of EVERY width 1..60 x k in {2,7} and 1..30 x k in {3,5} (thorough: 1..200 x {2,3,5,7}) at function level (chunk stream of CoolerCoarsener vs exact integer division) and end to end for widths 7,49,98,103,107,161,187,196 + random widths <= 2000 with >= 3 coarse bins per chromosome; nproc=2 and the CLI on a few, chains k1;k2 vs k1*k2 (fixed and variable tables), merge/coarsen interleavings, a second value column with agg max/min/sum incl. the D20 corpus (columns=[count,w], columns=[w]); "
+        "fixed-width tables of EVERY width 1..60 x k in {2,7} and 1..20 x k in {3,5} (thorough: 1..200 x {2,3,5,7}) at function level (chunk stream of CoolerCoarsener vs exact integer division) and end to end for widths 7,49,98,103,107,161,187,196 + random widths <= 2000 with >= 3 coarse bins per chromosome; nproc=2 and the CLI on a few, chains k1;k2 vs k1*k2 (fixed and variable tables), merge/coarsen interleavings, a second value column with agg max/min/sum incl. the D20 corpus (columns=[count,w], columns=[w]); "
         "`cooler coarsen` (and one `cooler zoomify`) with every order of 1..3 --field options over count/w/s (source holds all three), each with / without agg= and dtype=, per column vs the requested aggregate (sum by default) of the block and vs the model; every output judged also by its header attributes (storage-mode, bin-type/size, nbins, nchroms, nnz, sum, format) and by Cooler.matrix(balance=False)[:] vs the (symmetric completion of the) block aggregation; bases in legacy form (11 optional attributes removed one at a time, format-version 2; symmetric and square; merge inputs); LARGE genomes with few bins (total length just below / at / above 2^31 and 2^32, every chromosome < 2^31; fixed bins of 100 Mb..1 Gb and variable tables; symmetric and square; k = 2, 3 and k collapsing every chromosome to one bin; chunk sizes 1/7/nnz+1; nproc 1 and 2; zoomify on the same bases); HISTORIES in one process (the same source and destination URI strings while the source file is rewritten in between: re-binned coarser/finer, other chromsizes, variable widths, fewer/more bins, square, nproc 1 then 2 and 2 then 1, several chunk sizes; a hand-made ladder over two alternating file names), every output judged for the data stored now; every level (copied bases included, k=1) of zoomify_cooler / `cooler zoomify --base-uri` files built from 1, 2 and 3 base coolers in every listing order (bases that are / are not multiples of each other) vs the block aggregation of its own base; fixed parameter scenarios (output URI in a nested group, append into an existing file, same-file in/out, re-run onto an existing group, mode=w, nproc 2/3 with an uneven span count, CLI -p/--append/-a/-o URI, dtypes full/partial dict, lock=, float64 counts, weight bin column on the input, trailing empty rows, CoolerCoarsener batchsize 2/3); non-trivial = nnz>0 and at least 2 old bins; distinct by input hash")
 TRUSTED = ["pandas groupby(sort=True).aggregate('sum') is modelled as the canonical aggregate (Model/Pixels.v) and observed through CoolerCoarsener",
            "create() stores the concatenation of the chunk stream (property C01/C02, observed here through the output cooler)",
@@ -342,7 +342,7 @@ def part_api(ctx):
     for widths, symm, pix, note in CORPUS:
         blocks, pixels = build_case(rng, widths, symm, pix)
         inputs.append((widths, symm, pixels, note, thorough or len(inputs) < 4))
-    for i in range(60 if thorough else 9):
+    for i in range(60 if thorough else 7):
         widths, kind = G.random_widths(rng)
         symm = rng.random() < 0.6
         n = sum(len(w) for w in widths)
@@ -441,8 +441,8 @@ def part_widths(ctx):
     # (a) function level: every width 1..60 (thorough: 1..200) x k; exact integer division in the model and the oracle
     wmax = 200 if thorough else 60
     exprs = []
-    def ks_of(w):          # quick tier: k = 2 and 7 for every width, 3 and 5 for the widths up to 30
-        return ks if (thorough or w <= 30) else [2, 7]
+    def ks_of(w):          # quick tier: k = 2 and 7 for every width, 3 and 5 for the widths up to 20
+        return ks if (thorough or w <= 20) else [2, 7]
     for w in range(1, wmax + 1):
         c0 = width_case(w, 2)
         blocks = blocks_from_widths(c0["widths"])
@@ -1284,7 +1284,7 @@ def part_large(ctx):
         ok = [bb for bb in allb if nbins(sizes, bb) <= 24]          # few bins: the runs stay cheap
         for bb in (ok if thorough else [ok[(gi + rng.randrange(len(ok))) % len(ok)]]):
             inputs.append((f"{gname}, fixed {bb // 1_000_000} Mb", fixed_widths(sizes, bb), rng.random() < 0.6, bb))
-        if thorough or gi % 2 == 1 or gi == 2:
+        if thorough or gi in (2, 4):
             inputs.append((f"{gname}, variable", large_variable_widths(rng, sizes), rng.random() < 0.5, None))
     runs, zooms = [], []
     for note, widths, symm, bb in inputs:
@@ -1459,9 +1459,14 @@ def part_cli_fields(ctx):
     for n in (1, 2, 3):
         for order in itertools.permutations(F_COLS, n):
             pats = list(itertools.product([False, True], repeat=n))
-            if n == 3 and not thorough:      # every order, three with/without-agg patterns each (one at least mixed)
-                mixed = [p for p in pats if 0 < sum(p) < 3]
-                pats = rng.sample(mixed, 2) + [rng.choice([(False,) * 3, (True,) * 3])]
+            if not thorough:      # quick tier: every order; the mixed with/without-agg patterns first
+                mixed = [p for p in pats if 0 < sum(p) < n]
+                if n == 1:
+                    pats = [rng.choice(pats)]
+                elif n == 2:
+                    pats = mixed + ([rng.choice([(False, False), (True, True)])] if rng.random() < 0.5 else [])
+                else:
+                    pats = rng.sample(mixed, 2)
             for pat in pats:
                 add(order, pat)
     # the defect class in its simplest form, always present: plain count first, an aggregate on a later column
